@@ -17,7 +17,7 @@ PLAN = dict(
                     "reference semantics); (2) Rust compile_prog output = Gallina model output (canonical printing); (3) ALWAYS "
                     "the executable property on the RUST output: run_fun(checked program) vs run_core(Rust Core program) on "
                     "every tuple whose source run ends normally within the fuel -> VIOL class="
-                    "call-to-main (repaired by <commitmain>: when main is called it gets a return continuation and the program starts at a fresh entry label; a recurrence is a violation) | "
+                    "call-to-main (repaired by f929eb7: when main is called it gets a return continuation and the program starts at a fresh entry label; a recurrence is a violation) | "
                     "mistyped-goto-unbound (repaired by 126604b; a recurrence is a violation) | capture-under-binder (repaired by d5d4151: a continuation "
                     "that mentions a name is kept outside of a let / pattern binder of that name; a recurrence is a violation) | semantic-mismatch; mismatches of programs outside the precondition "
                     "(effects in argument positions) are SKIPped.  Theorems: fresh names for fresh_name and for the whole "
